@@ -34,7 +34,7 @@ func init() {
 
 var c17Names = []string{
 	"a.sh", "b.pl", "c.subr", "A.sh", "a b.sh", "a[1].sh", "x.sh.bak", "x.txt",
-	".hidden.sh", ".#a.sh", "a.sh~", "Makefile",
+	".hidden.sh", ".#a.sh", "a.sh~", "Makefile", "GNUMakefile",
 }
 
 // Entry kinds.
@@ -74,9 +74,10 @@ var c17Tables = []map[string]string{
 	{"*.sh": "shell", "*.subr": "shell"},
 	{"*.pl": "perl", "*.sh": "shell", "*.subr": "shell", "a*": "upper"},
 	{}, /* Every default pattern switched off, none added. */
+	{"*.pl": "perl", "*.sh": "shell", "*.subr": "shell", "Makefile": "upper"}, /* A pattern without any wildcard: that very name. */
 }
 
-var c17TableNames = []string{"default", "default+*.txt", "default-*.pl", "default+overlapping a*", "emptied"}
+var c17TableNames = []string{"default", "default+*.txt", "default-*.pl", "default+overlapping a*", "emptied", "default+literal Makefile"}
 
 func c17Filter(n string) shellfuncsfile.Filter {
 	switch n {
